@@ -315,7 +315,7 @@ def run_script(which, script, vals, cwd):
         env["V%d" % j] = v
     cmd = lib.shell_cmd(which, script)
     try:
-        p = subprocess.run(cmd, cwd=cwd, env={k: v.encode("utf-8", "surrogateescape") for k, v in env.items()},
+        p = lib.sp_run(cmd, cwd=cwd, env={k: v.encode("utf-8", "surrogateescape") for k, v in env.items()},
                            stdin=subprocess.DEVNULL, stdout=subprocess.PIPE, stderr=subprocess.PIPE, timeout=120)
         return p.returncode, p.stdout, p.stderr.decode("utf-8", "replace")
     except subprocess.TimeoutExpired:
